@@ -482,6 +482,20 @@ func (fx *fnExec) execBuiltin(dst *ssa.Call, b *ssa.Builtin, c *ssa.CallCommon, 
 		fx.assume(Term{fmt.Sprintf("(forall ((k$q Int)) (! (=> (and (<= 0 k$q) (< k$q %s)) (= (sat %s k$q) (select (select %s %s) %s))) :pattern ((sat %s k$q))))",
 			n.S, r.S, h.S, sl.Arr.S, fx.eIdx(sl.Off, kq).S, r.S), SBool})
 		fx.setResult(dst, Sc{r, types.Typ[types.String]})
+	case "Slice":
+		// unsafe.Slice(ptr, n): n elements of memory we know nothing about (it may alias anything)
+		st, ok := c.Signature().Results().At(0).Type().Underlying().(*types.Slice)
+		if !ok && dst != nil {
+			st, ok = dst.Type().Underlying().(*types.Slice)
+		}
+		if !ok {
+			panic(vcErr("unsafe.Slice: result type"))
+		}
+		n := fx.idx(args[1])
+		arr := fx.freshConst("uslice", SInt)
+		fx.assume(tNot(tEq(arr, intLit64(0))))
+		fx.oblige("safety:unsafe-slice", "safety", fx.iLe(fx.iZero(), n), where, "0 <= n in unsafe.Slice(p, n)")
+		fx.setResult(dst, Sl{arr, fx.iZero(), n, n, st.Elem()})
 	case "clear":
 		panic(vcErr("builtin clear unsupported"))
 	case "recover":
